@@ -18,6 +18,7 @@ import (
 	thandler "github.com/siglens/siglens/pkg/segment/tracing/handler"
 	"github.com/siglens/siglens/pkg/segment/writer"
 	serverutils "github.com/siglens/siglens/pkg/server/utils"
+	sutils "github.com/siglens/siglens/pkg/utils"
 	vtable "github.com/siglens/siglens/pkg/virtualtable"
 	log "github.com/sirupsen/logrus"
 	"github.com/valyala/fasthttp"
@@ -59,6 +60,12 @@ type Scenario struct {
 	Gantt   []string `json:"gantt"`  // trace ids for which the span tree is requested
 	Dep     bool     `json:"dep"`
 	Red     bool     `json:"red"`
+	// paged streams (more spans than one internal result page of the handlers)
+	OwnTs  bool     `json:"own_ts,omitempty"` // every OTLP request waits for a fresh millisecond: requests have pairwise different ingest timestamps
+	Layout []int    `json:"layout,omitempty"` // per request (overrides FlushEach): 0 nothing, 1 flush after it (= end of a block), 2 flush + rotate (= end of a segment)
+	Procs  int      `json:"procs,omitempty"`  // GOMAXPROCS of the worker = blocks per fetch of the searcher = hits per batch reaching head/scroller (0: default)
+	Scroll []ScrollCase `json:"scroll,omitempty"` // stream "scroll" (paging.go): only these cases are run
+	Raw    []string `json:"raw,omitempty"`    // raw paged reads to record: "*" (the window, as the dependency graph / RED read it) or a trace id (as the span tree reads it)
 }
 
 type SearchObs struct {
@@ -108,6 +115,14 @@ type StoredObs struct {
 	T   string `json:"t"`
 	S   string `json:"s"`
 	Svc string `json:"svc"`
+	Ts  uint64 `json:"ts,omitempty"` // ingest timestamp (ms) of the stored event
+}
+
+// RawObs: the pages from=0,1000,2000,... (size 1000) of one search text, read the way the handlers read them
+// (until a page is empty); every page is the list of "trace/span" keys in the order of the answer
+type RawObs struct {
+	Pages [][]string `json:"pages"`
+	Err   string     `json:"err,omitempty"`
 }
 type WorkerObs struct {
 	Stored    []StoredObs               `json:"stored"` // every span of index traces read back with a "*" query
@@ -119,6 +134,9 @@ type WorkerObs struct {
 	DepErr string                    `json:"dep_err,omitempty"`
 	Red    []RedObs                  `json:"red"`
 	RedErr string                    `json:"red_err,omitempty"`
+	Raw    map[string]*RawObs        `json:"raw,omitempty"`
+	Scroll []ScrollObs               `json:"scroll,omitempty"`
+	ReqMs  []uint64                  `json:"req_ms,omitempty"` // OwnTs: the millisecond clock read just before every OTLP request (after it had moved on)
 }
 
 func initNode(dir string) error {
@@ -234,11 +252,22 @@ const opCap = 60 * time.Second
 
 func runScenarioWorker(sc *Scenario) *WorkerObs {
 	o := &WorkerObs{Gantt: map[string]*GanttObs{}}
+	if len(sc.Scroll) > 0 {
+		o.Scroll = runScrollWorker(sc.Scroll)
+		return o
+	}
 	// ingest through the real OTLP path
 	pos := 0
-	for _, n := range sc.Batches {
+	lastMs := uint64(0)
+	for bi, n := range sc.Batches {
 		if pos+n > len(sc.Spans) {
 			n = len(sc.Spans) - pos
+		}
+		if sc.OwnTs { // ProcessTraceIngest stamps every span of a request with the millisecond clock read at its start
+			for sutils.GetCurrentTimeInMs() <= lastMs {
+				time.Sleep(50 * time.Microsecond)
+			}
+			o.ReqMs = append(o.ReqMs, sutils.GetCurrentTimeInMs())
 		}
 		body := otlpRequest(sc.Spans[pos : pos+n])
 		pos += n
@@ -250,7 +279,17 @@ func runScenarioWorker(sc *Scenario) *WorkerObs {
 			code = -1
 		}
 		o.Ingest = append(o.Ingest, code)
-		if sc.FlushEach {
+		if sc.OwnTs {
+			lastMs = sutils.GetCurrentTimeInMs()
+		}
+		if sc.Layout != nil {
+			if bi < len(sc.Layout) && sc.Layout[bi] >= 1 {
+				flushAll()
+				if sc.Layout[bi] == 2 {
+					writer.ForceRotateSegmentsForTest()
+				}
+			}
+		} else if sc.FlushEach {
 			flushAll()
 		}
 	}
@@ -285,8 +324,52 @@ func runScenarioWorker(sc *Scenario) *WorkerObs {
 						so.Svc = fmt.Sprintf("<%v>", v)
 					}
 				}
+				if f := fl(r["timestamp"]); f > 0 {
+					so.Ts = uint64(f)
+				}
 				o.Stored = append(o.Stored, so)
 			}
+		}
+	}
+
+	// raw paged reads: the requests MakeTracesDependancyGraph / ProcessRedTracesIngest ("*") and
+	// ProcessGanttChartRequest (trace_id="<id>") send, page after page until an empty page
+	for _, what := range sc.Raw {
+		if o.Raw == nil {
+			o.Raw = map[string]*RawObs{}
+		}
+		ro := &RawObs{}
+		o.Raw[what] = ro
+		text := "*"
+		if what != "*" {
+			text = fmt.Sprintf(`trace_id="%s"`, what)
+		}
+		for from := 0; from <= len(sc.Spans)+2000; from += 1000 {
+			body, _ := json.Marshal(map[string]interface{}{"searchText": text, "indexName": "traces", "startEpoch": se, "endEpoch": ee,
+				"queryLanguage": "Splunk QL", "from": from, "size": 1000})
+			ctx := postCtx(body)
+			var resp struct {
+				Hits struct {
+					Records []map[string]interface{} `json:"records"`
+				} `json:"hits"`
+			}
+			if ro.Err = guarded(opCap, func() { pipesearchProcess(ctx) }); ro.Err != "" {
+				break
+			}
+			if err := json.Unmarshal(ctx.Response.Body(), &resp); err != nil {
+				ro.Err = "bad body: " + trunc(string(ctx.Response.Body()), 300)
+				break
+			}
+			if len(resp.Hits.Records) == 0 {
+				break
+			}
+			pg := make([]string, 0, len(resp.Hits.Records))
+			for _, r := range resp.Hits.Records {
+				t, _ := r["trace_id"].(string)
+				sid, _ := r["span_id"].(string)
+				pg = append(pg, t+"/"+sid)
+			}
+			ro.Pages = append(ro.Pages, pg)
 		}
 	}
 
